@@ -10,11 +10,11 @@ theorem promptEv_tickS (w : W) (h1 : w.up = []) (h2 : w.down = []) (t : Int) (h3
     (h4 : (timeoutS w : Int) ≤ t) : promptEv w = .tickS := by
   simp [promptEv, h1, h2, h3, h4]
 
-theorem last_step {P : Par} (hP : P.Ok) {frame : List Nat} {w : W} {c0 : Client.Cli} {o f : Nat}
-    (h : UpFlight P (0x5a :: frame) w c0 o f) (h64 : (0x5a :: frame).length ≤ 65536)
+theorem last_step {P : Par} (hP : P.Ok) {sl sp : Nat} {frame : List Nat} {w : W} {c0 : Client.Cli} {o f : Nat}
+    (h : UpFlightS P sl sp (0x5a :: frame) w c0 o f) (h64 : (0x5a :: frame).length ≤ 65536)
     (heq : o + fragLen P ((0x5a :: frame).drop o) = (0x5a :: frame).length) (h24 : 24 ≤ frame.length)
-    (hdst : Server.ipDst frame ≠ (Server.getUser w.srv P.u).tunIp) :
-    ∃ w', promptSteps P.u 3 w = some w' ∧ QuietImm P w' ∧ w'.tunS = w.tunS ++ [[0, 0, 8, 0] ++ frame.drop 4] ∧
+    (hdst : Server.ipDst frame ≠ (Server.getUser w.srv P.u).tunIp) (hsl : 1 ≤ sl ∧ sl ≤ 21 := by omega) :
+    ∃ w', promptSteps P.u 3 w = some w' ∧ QuietImmS P sl sp w' ∧ w'.tunS = w.tunS ++ [[0, 0, 8, 0] ++ frame.drop 4] ∧
       w'.tunC = w.tunC ∧ w'.cs.c.outpkt.seqno = c0.outpkt.seqno ∧
       (Server.getUser w'.srv P.u).tunIp = (Server.getUser w.srv P.u).tunIp ∧
       w'.cs.c.sendPingSoon = 20 ∧ w'.cs.c.selecttimeout = c0.selecttimeout ∧
@@ -139,10 +139,10 @@ theorem last_step {P : Par} (hP : P.Ok) {frame : List Nat} {w : W} {c0 : Client.
         subst hcd; show c.datacmc = _; rw [hsf.cmc]
         have := h.ready.stat.cmc
         split <;> omega
-      show Aged P (Server.getUser s'' P.u) cd.datacmc 1
+      show Aged P (Server.getUser s'' P.u) cd.datacmc sl
       rw [this]; exact hfresh2
     · have : cd.randSeed = c0.randSeed := by subst hcd; show c.randSeed = _; exact hsf.seed
-      show PAged P (Server.getUser s'' P.u) cd.randSeed 1
+      show PAged P (Server.getUser s'' P.u) cd.randSeed sp
       rw [this]; exact hpaged2
   · subst hw3; subst hw2; rfl
   · subst hw3; subst hw2; rfl
@@ -172,12 +172,13 @@ def upFrags (P : Par) : Nat → List Nat → Nat
 theorem upFrags_nil (P : Par) (fuel : Nat) : upFrags P fuel [] = 0 := by
   cases fuel <;> simp [upFrags]
 
-theorem up_flight_run {P : Par} (hP : P.Ok) {frame : List Nat} (h64 : (0x5a :: frame).length ≤ 65536) (h24 : 24 ≤ frame.length) :
-    ∀ (fuel : Nat) (w : W) (c0 : Client.Cli) (o f : Nat), UpFlight P (0x5a :: frame) w c0 o f →
+theorem up_flight_run_aux {P : Par} (hP : P.Ok) {sl sp : Nat} {frame : List Nat} (h64 : (0x5a :: frame).length ≤ 65536) (h24 : 24 ≤ frame.length)
+    (hsl : 1 ≤ sl ∧ sl ≤ 21) :
+    ∀ (fuel : Nat) (w : W) (c0 : Client.Cli) (o f : Nat), UpFlightS P sl sp (0x5a :: frame) w c0 o f →
       ((0x5a :: frame).drop o).length ≤ fuel → f + upFrags P fuel ((0x5a :: frame).drop o) ≤ 16 →
       Server.ipDst frame ≠ (Server.getUser w.srv P.u).tunIp →
       ∃ w', promptSteps P.u (2 * upFrags P fuel ((0x5a :: frame).drop o) + 1) w = some w' ∧
-        QuietImm P w' ∧
+        QuietImmS P sl sp w' ∧
         w'.tunS = w.tunS ++ [[0, 0, 8, 0] ++ frame.drop 4] ∧ w'.tunC = w.tunC ∧ w'.cs.c.outpkt.seqno = c0.outpkt.seqno ∧
         (Server.getUser w'.srv P.u).tunIp = (Server.getUser w.srv P.u).tunIp ∧
         w'.cs.c.sendPingSoon = 20 ∧ w'.cs.c.selecttimeout = c0.selecttimeout ∧
@@ -237,15 +238,27 @@ theorem up_flight_run {P : Par} (hP : P.Ok) {frame : List Nat} (h64 : (0x5a :: f
       · rw [h5, hsq]
       · rw [h6, htip]
 
+theorem up_flight_run {P : Par} (hP : P.Ok) {sl sp : Nat} {frame : List Nat} (h64 : (0x5a :: frame).length ≤ 65536) (h24 : 24 ≤ frame.length)
+    (fuel : Nat) (w : W) (c0 : Client.Cli) (o f : Nat) (hfl : UpFlightS P sl sp (0x5a :: frame) w c0 o f)
+    (hlen : ((0x5a :: frame).drop o).length ≤ fuel) (hfr : f + upFrags P fuel ((0x5a :: frame).drop o) ≤ 16)
+    (hdst : Server.ipDst frame ≠ (Server.getUser w.srv P.u).tunIp) (hsl : 1 ≤ sl ∧ sl ≤ 21 := by omega) :
+    ∃ w', promptSteps P.u (2 * upFrags P fuel ((0x5a :: frame).drop o) + 1) w = some w' ∧
+      QuietImmS P sl sp w' ∧
+      w'.tunS = w.tunS ++ [[0, 0, 8, 0] ++ frame.drop 4] ∧ w'.tunC = w.tunC ∧ w'.cs.c.outpkt.seqno = c0.outpkt.seqno ∧
+      (Server.getUser w'.srv P.u).tunIp = (Server.getUser w.srv P.u).tunIp ∧
+      w'.cs.c.sendPingSoon = 20 ∧ w'.cs.c.selecttimeout = c0.selecttimeout ∧
+      (Server.getUser w'.srv P.u).fragsize = (Server.getUser w.srv P.u).fragsize :=
+  up_flight_run_aux hP h64 h24 hsl fuel w c0 o f hfl hlen hfr hdst
+
 /-- **One packet upstream, immediate mode.**  From a quiescent joint state, a frame offered to the client is cut into
 `g` fragments; after `2·g + 1` steps of the prompt schedule the joint state is quiescent again, the server has written
 exactly that frame (with the tun header rewritten) to its tun device and the client nothing. -/
-theorem up_packet_imm {P : Par} (hP : P.Ok) {w : W} (hq : QuietImm P w) (frame : List Nat)
+theorem up_packet_imm {P : Par} (hP : P.Ok) {sl sp : Nat} {w : W} (hq : QuietImmS P sl sp w) (frame : List Nat)
     (h24 : 24 ≤ frame.length) (hl : frame.length < 65536) (hb : Codec.Bytes frame)
     (hdst : Server.ipDst frame ≠ (Server.getUser w.srv P.u).tunIp)
-    (hg16 : upFrags P (frame.length + 1) (0x5a :: frame) ≤ 16) :
+    (hg16 : upFrags P (frame.length + 1) (0x5a :: frame) ≤ 16) (hsl : 1 ≤ sl ∧ sl ≤ 21 := by omega) :
     ∃ w', promptSteps P.u (2 * upFrags P (frame.length + 1) (0x5a :: frame) + 1) (step w (.offerC frame)) = some w' ∧
-      QuietImm P w' ∧
+      QuietImmS P sl sp w' ∧
       w'.tunS = w.tunS ++ [[0, 0, 8, 0] ++ frame.drop 4] ∧ w'.tunC = w.tunC ∧
       (Server.getUser w'.srv P.u).tunIp = (Server.getUser w.srv P.u).tunIp ∧
       w'.cs.c.sendPingSoon = 20 ∧ w'.cs.c.selecttimeout = w.cs.c.selecttimeout ∧
@@ -291,10 +304,11 @@ def tunImage (frame : List Nat) : List Nat := [0, 0, 8, 0] ++ frame.drop 4
 
 /-- **A sequence of packets upstream, immediate mode**: each frame is offered after the previous one was delivered;
 all of them arrive exactly once, in order, and the joint state is quiescent again. -/
-theorem up_sequence_imm {P : Par} (hP : P.Ok) (fuel : Nat) (hfuel : 33 ≤ fuel) :
-    ∀ (frames : List (List Nat)) (w : W), QuietImm P w →
+theorem up_sequence_imm_aux {P : Par} (hP : P.Ok) (fuel : Nat) (hfuel : 33 ≤ fuel) {sl sp : Nat}
+    (hsl : 1 ≤ sl ∧ sl ≤ 21) :
+    ∀ (frames : List (List Nat)) (w : W), QuietImmS P sl sp w →
       (∀ f ∈ frames, UpFrameOk P (Server.getUser w.srv P.u).tunIp f) →
-      QuietImm P (offerAllC P.u fuel w frames) ∧
+      QuietImmS P sl sp (offerAllC P.u fuel w frames) ∧
       (offerAllC P.u fuel w frames).tunS = w.tunS ++ frames.map tunImage ∧
       (offerAllC P.u fuel w frames).tunC = w.tunC := by
   intro frames
@@ -312,5 +326,13 @@ theorem up_sequence_imm {P : Par} (hP : P.Ok) (fuel : Nat) (hfuel : 33 ≤ fuel)
     refine ⟨this.1, ?_, ?_⟩
     · rw [this.2.1, h3]; simp [tunImage]
     · rw [this.2.2, h4]
+
+theorem up_sequence_imm {P : Par} (hP : P.Ok) (fuel : Nat) (hfuel : 33 ≤ fuel) {sl sp : Nat}
+    (frames : List (List Nat)) (w : W) (hq : QuietImmS P sl sp w)
+    (hok : ∀ f ∈ frames, UpFrameOk P (Server.getUser w.srv P.u).tunIp f) (hsl : 1 ≤ sl ∧ sl ≤ 21 := by omega) :
+    QuietImmS P sl sp (offerAllC P.u fuel w frames) ∧
+    (offerAllC P.u fuel w frames).tunS = w.tunS ++ frames.map tunImage ∧
+    (offerAllC P.u fuel w frames).tunC = w.tunC :=
+  up_sequence_imm_aux hP fuel hfuel hsl frames w hq hok
 
 end Iodine.C02L
